@@ -402,18 +402,17 @@ Qed.
 
 Lemma eprec_real_lvl x : isreal x = true ->
   (5 <= elvl x)%nat /\ ((50 <= eprec x)%Z -> (6 <= elvl x)%nat) /\ ((60 <= eprec x)%Z -> (8 <= elvl x)%nat) /\
-  ((60 <= eprec x)%Z -> f10a x = false -> (9 <= elvl x)%nat).
+  ((61 <= eprec x)%Z -> (9 <= elvl x)%nat).
 Proof.
-  destruct x; cbn [isreal is_boolkind negb]; try discriminate; intros _; cbn [elvl eprec prec f10a].
+  destruct x; cbn [isreal is_boolkind negb]; try discriminate; intros _; cbn [elvl eprec prec].
   - destruct (qneg q); [repeat split; intros; lia|]. destruct (Z.eqb k 1); repeat split; intros; lia.
   - repeat split; intros; lia.
   - repeat split; intros; lia.
   - repeat split; intros; lia.
   - repeat split; intros; lia.
   - destruct l as [|y r]; [repeat split; intros; lia|]. destruct (is_neg_num y); repeat split; intros; lia.
-  - destruct (is_half x2) eqn:E1; [repeat split; intros; lia|].
-    destruct (is_neghalf x2 || is_negone x2)%bool eqn:E2; repeat split; intros; try lia.
-    cbn [orb] in *. rewrite E2 in *. discriminate.
+  - destruct (is_half x2) eqn:E1; [destruct (is_neghalf x2 || is_negone x2)%bool; repeat split; intros; lia|].
+    destruct (is_neghalf x2 || is_negone x2)%bool eqn:E2; repeat split; intros; lia.
   - repeat split; intros; lia.
   - repeat split; intros; lia.
   - repeat split; intros; lia.
@@ -424,39 +423,6 @@ Proof.
   destruct x; cbn; try discriminate; intros _; try (split; intros; lia).
   destruct (Z.eqb op 0); [split; intros; lia|]. destruct (Z.eqb op 1); [split; intros; lia|].
   split; intros; lia.
-Qed.
-
-Lemma expr_eqb_refl : forall e, expr_eqb e e = true.
-Proof.
-  assert (L : forall l, Forall (fun e => expr_eqb e e = true) l ->
-    (fix leq (l l' : list expr) : bool :=
-       match l, l' with
-       | [], [] => true
-       | x :: r, y :: r' => expr_eqb x y && leq r r'
-       | _, _ => false
-       end) l l = true).
-  { induction 1 as [|x r Hx Hr IH]; [reflexivity|]. rewrite Hx, IH. reflexivity. }
-  induction e using expr_ind'; cbn [expr_eqb]; try reflexivity;
-    rewrite ?Z.eqb_refl, ?Pos.eqb_refl, ?IHe1, ?IHe2; cbn [andb]; try reflexivity; try (apply L; assumption).
-  induction H as [|[x c] r [Hx Hc] Hr IH]; [reflexivity|]. cbn [fst snd] in *. rewrite Hx, Hc, IH. reflexivity.
-Qed.
-
-Lemma paren_n_props fsem psem csem vsem k p :
-  wb (paren_n k p) = wb p /\ pyeval fsem psem csem vsem (paren_n k p) = pyeval fsem psem csem vsem p /\
-  (lvl (paren_n k p) = 9%nat \/ (k = 0%nat /\ paren_n k p = p)).
-Proof.
-  induction k as [|k [I1 [I2 I3]]]; cbn [paren_n].
-  - repeat split. right. split; reflexivity.
-  - cbn [wb pyeval lvl]. repeat split; try assumption. left. reflexivity.
-Qed.
-
-Lemma wraps_map (w : nat -> nat) (l : list ptree) : forall s,
-  Forall2 (fun p' p => exists k, p' = paren_n k p)
-          (map (fun ip => paren_n (w (fst ip)) (snd ip)) (combine (seq s (length l)) l)) l.
-Proof.
-  induction l as [|x r IH]; intros s; cbn [length seq combine map]; constructor.
-  - eexists. reflexivity.
-  - apply IH.
 Qed.
 
 Lemma Q2R_qint z : Q2R (qint z) = IZR z.
@@ -671,15 +637,13 @@ Section Main.
   Lemma pp_mul n l : pp (S n) (EMul l) =
     match mul_split l with
     | None => Unm
-    | Some (sign, my, items) =>
+    | Some (sign, items) =>
         let cl := map classify items in
         let a := concat (map fst cl) in
         let b := concat (map snd cl) in
         let a' := match a with [] => [ENum 0 (qint 1)] | _ => a end in
-        rbind (collect (map (brk n my) a')) (fun a_str =>
-        rbind (collect (map (fun yf => brk n my (fst yf)) b)) (fun b_str0 =>
-          let b_str := map (fun ip => paren_n (wraps b (fst ip)) (snd ip))
-                           (combine (seq 0 (length b_str0)) b_str0) in
+        rbind (collect (map (brk n 50) a')) (fun a_str =>
+        rbind (collect (map (brk n 51) b)) (fun b_str =>
           Ok (mk_mul sign a_str b_str)))
     end.
   Proof. reflexivity. Qed.
@@ -700,35 +664,34 @@ Section Main.
 
   Lemma okb_mul_inv l : okb (EMul l) = true -> okl l.
   Proof.
-    intros H. apply okb_split in H. destruct H as [_ H]. cbn [printable] in H. apply andb_prop in H.
-    destruct H as [H _]. apply forallb_Forall in H. exact H.
+    intros H. apply okb_split in H. destruct H as [_ H]. cbn [printable] in H. apply forallb_Forall in H. exact H.
   Qed.
 
   Lemma vals_cons_inv x l rs : vals (x :: l) rs -> exists r rs', rs = r :: rs' /\ ev x = Some (VR r) /\ vals l rs'.
   Proof. intros H. inversion H; subst. eexists; eexists; repeat split; eassumption. Qed.
 
-  Lemma mul_split_spec l sign my items : mul_split l = Some (sign, my, items) -> okl l ->
+  Lemma mul_split_spec l sign items : mul_split l = Some (sign, items) -> okl l ->
     okl items /\
     (forall rs, vals l rs -> exists rs', vals items rs' /\ rprod rs = (if sign then - rprod rs' else rprod rs')%R).
   Proof.
     intros H Hok.
-    assert (Triv : forall my', Some (false, my', l) = Some (sign, my, items) ->
+    assert (Triv : Some (false, l) = Some (sign, items) ->
       okl items /\ (forall rs, vals l rs -> exists rs', vals items rs' /\ rprod rs = (if sign then - rprod rs' else rprod rs')%R)).
-    { intros my' E. inversion E; subst. split; [exact Hok|]. intros rs Hv. exists rs. split; [exact Hv | reflexivity]. }
-    unfold mul_split in H. destruct l as [|h rest]; [eapply Triv; exact H|].
-    destruct h; try (eapply Triv; exact H).
-    destruct (qneg q) eqn:Eq; [|eapply Triv; exact H].
+    { intros E. inversion E; subst. split; [exact Hok|]. intros rs Hv. exists rs. split; [exact Hv | reflexivity]. }
+    unfold mul_split in H. destruct l as [|h rest]; [exact (Triv H)|].
+    destruct h; try exact (Triv H).
+    destruct (qneg q) eqn:Eq; [|exact (Triv H)].
     inversion Hok as [|h0 l0 Hh Hrest]; subst.
     destruct (is_negone (ENum k q)) eqn:En.
     - destruct (negone_val _ _ En) as [-> Hq].
-      assert (Gen : forall my', Some (true, my', rest) = Some (sign, my, items) ->
+      assert (Gen : Some (true, rest) = Some (sign, items) ->
         okl items /\ (forall rs, vals (ENum 0 q :: rest) rs ->
           exists rs', vals items rs' /\ rprod rs = (if sign then - rprod rs' else rprod rs')%R)).
-      { intros my' E. inversion E; subst. split; [exact Hrest|]. intros rs Hv.
+      { intros E. inversion E; subst. split; [exact Hrest|]. intros rs Hv.
         apply vals_cons_inv in Hv. destruct Hv as [r [rs' [-> [Hr Hv]]]]. rewrite eval_num in Hr. inversion Hr; subst.
         exists rs'. split; [exact Hv|]. unfold rprod. cbn. rewrite Hq. ring. }
-      destruct rest as [|r1 [|r2 rest']]; [eapply Gen; exact H | | destruct r1; eapply Gen; exact H].
-      destruct r1; try (eapply Gen; exact H).
+      destruct rest as [|r1 [|r2 rest']]; [exact (Gen H) | | destruct r1; exact (Gen H)].
+      destruct r1; try exact (Gen H).
       inversion H; subst. inversion Hrest; subst. split; [apply okb_mul_inv; assumption|].
       intros rs Hv. apply vals_cons_inv in Hv. destruct Hv as [r [rs' [-> [Hr Hv]]]]. rewrite eval_num in Hr. inversion Hr; subst.
       apply vals_cons_inv in Hv. destruct Hv as [r1 [rs'' [-> [Hr1 Hv]]]]. inversion Hv; subst.
@@ -736,7 +699,7 @@ Section Main.
       exists rs1. split; [exact Hv1|]. unfold rprod. cbn. rewrite Hq. ring.
     - assert (Gen : forall r1 rest1, okl (r1 :: rest1) ->
           (forall rs, vals rest rs -> exists rs1, vals (r1 :: rest1) rs1 /\ rprod rs = rprod rs1) ->
-          Some (true, 50%Z, ENum k (Qopp q) :: r1 :: rest1) = Some (sign, my, items) ->
+          Some (true, ENum k (Qopp q) :: r1 :: rest1) = Some (sign, items) ->
           okl items /\ (forall rs, vals (ENum k q :: rest) rs ->
             exists rs', vals items rs' /\ rprod rs = (if sign then - rprod rs' else rprod rs')%R)).
       { intros r1 rest1 Hok1 Hval E. inversion E; subst. split; [constructor; [apply okb_num_opp; exact Hh | exact Hok1]|].
@@ -745,7 +708,7 @@ Section Main.
         - constructor; [apply eval_num | exact Hv1].
         - rewrite Q2R_opp. unfold rprod in *. cbn [fold_right]. rewrite E1. ring. }
       destruct rest as [|r1 rest']; [discriminate|].
-      assert (Plain : (if is_num r1 then None else Some (true, 50%Z, ENum k (Qopp q) :: r1 :: rest')) = Some (sign, my, items) ->
+      assert (Plain : (if is_num r1 then None else Some (true, ENum k (Qopp q) :: r1 :: rest')) = Some (sign, items) ->
         okl items /\ (forall rs, vals (ENum k q :: r1 :: rest') rs ->
             exists rs', vals items rs' /\ rprod rs = (if sign then - rprod rs' else rprod rs')%R)).
       { destruct (is_num r1); [discriminate|]. apply Gen; [exact Hrest|]. intros rs Hv. exists rs. split; [exact Hv | reflexivity]. }
@@ -759,19 +722,11 @@ Section Main.
       exists rs1. split; [exact Hv1|]. unfold rprod. cbn. ring.
   Qed.
 
-  Lemma mul_split_my l sign my items : mul_split l = Some (sign, my, items) -> mul_ok l = true ->
-    (50 <= my)%Z /\ den_bad my (concat (map snd (map classify items))) = false.
-  Proof.
-    unfold mul_ok. intros H. rewrite H. intros K. apply andb_prop in K. destruct K as [K1 K2].
-    split; [apply Z.leb_le; exact K1|]. rewrite map_map. apply negb_true_iff in K2. exact K2.
-  Qed.
-
   (* classification into numerator and denominator items *)
-  Lemma classify_ok it : okb it = true ->
-    okl (fst (classify it)) /\ Forall (fun yf => okb (fst yf) = true) (snd (classify it)).
+  Lemma classify_ok it : okb it = true -> okl (fst (classify it)) /\ okl (snd (classify it)).
   Proof.
     intros Hok.
-    assert (Triv : okl [it] /\ Forall (fun yf : expr * bool => okb (fst yf) = true) []) by (split; constructor; [exact Hok | constructor]).
+    assert (Triv : okl [it] /\ okl []) by (split; constructor; [exact Hok | constructor]).
     destruct it; try exact Triv.
     - (* number *) cbn [classify]. destruct (is_ratk k); [|exact Triv]. cbn [fst snd]. split.
       + destruct (Qnum q =? 1)%Z; constructor; [reflexivity | constructor].
@@ -780,25 +735,25 @@ Section Main.
       destruct (is_ratk k && qneg q)%bool eqn:E; [|exact Triv].
       apply okb_split in Hok. destruct Hok as [_ Hp]. cbn [printable] in Hp.
       repeat (apply andb_prop in Hp; destruct Hp as [Hp ?]).
-      destruct (is_negone (ENum k q)); cbn [fst snd]; (split; [constructor|]); constructor; try constructor; cbn [fst].
-      + unfold okb. rewrite Hp, H1. reflexivity.
+      destruct (is_negone (ENum k q)); cbn [fst snd]; (split; [constructor|]); constructor; try constructor.
+      + unfold okb. rewrite Hp, H0. reflexivity.
       + unfold okb. cbn [isreal is_boolkind negb printable]. cbn [isreal is_boolkind negb printable Qopp Qden] in *.
-        rewrite Hp, H1, H, H0. reflexivity.
+        rewrite Hp, H0, H. reflexivity.
   Qed.
 
   Lemma classify_val it r : okb it = true -> ev it = Some (VR r) ->
-    exists ra rb, vals (fst (classify it)) ra /\ vals (map fst (snd (classify it))) rb /\
+    exists ra rb, vals (fst (classify it)) ra /\ vals (snd (classify it)) rb /\
                   rprod rb <> 0%R /\ r = (rprod ra * / rprod rb)%R.
   Proof.
     intros Hok Hv.
-    assert (Triv : exists ra rb, vals [it] ra /\ vals (map fst (@nil (expr * bool))) rb /\ rprod rb <> 0%R /\ r = (rprod ra * / rprod rb)%R).
+    assert (Triv : exists ra rb, vals [it] ra /\ vals [] rb /\ rprod rb <> 0%R /\ r = (rprod ra * / rprod rb)%R).
     { exists [r], []. repeat split; [constructor; [exact Hv | constructor] | constructor | unfold rprod; cbn; lra | unfold rprod; cbn; field]. }
     destruct it; try exact Triv.
     - (* number *) cbn [classify]. destruct (is_ratk k); [|exact Triv]. cbn [fst snd].
       rewrite eval_num in Hv. inversion Hv; subst. clear Hv.
       assert (Hd : IZR (Z.pos (Qden q)) <> 0%R) by (apply not_0_IZR; discriminate).
       exists (if (Qnum q =? 1)%Z then [] else [IZR (Qnum q)]), (if (Qden q =? 1)%positive then [] else [IZR (Z.pos (Qden q))]).
-      destruct (Qnum q =? 1)%Z eqn:E1; destruct (Qden q =? 1)%positive eqn:E2; cbn [map fst];
+      destruct (Qnum q =? 1)%Z eqn:E1; destruct (Qden q =? 1)%positive eqn:E2;
         (split; [repeat constructor; rewrite eval_num, Q2R_qint; reflexivity|]);
         (split; [repeat constructor; rewrite eval_num, Q2R_qint; reflexivity|]);
         unfold rprod, Q2R; cbn [fold_right];
@@ -809,7 +764,7 @@ Section Main.
       apply andb_prop in E. destruct E as [_ Eq].
       apply eval_pow_inv in Hv. destruct Hv as [rb [rx [r' [Hb [Hx [Hps E']]]]]]. inversion E'; subst r'. clear E'.
       rewrite eval_num in Hx. inversion Hx; subst rx. clear Hx.
-      destruct (is_negone (ENum k q)) eqn:En; cbn [fst snd map].
+      destruct (is_negone (ENum k q)) eqn:En; cbn [fst snd].
       + destruct (negone_val _ _ En) as [_ Hq]. rewrite Hq in Hps.
         replace (IZR (-1)) with (Ropp 1%R) in Hps by lra.
         rewrite (Hneg rb 1 ltac:(lra)), Hp1 in Hps. cbn [inv_opt] in Hps.
@@ -825,8 +780,7 @@ Section Main.
   Qed.
 
   Lemma classify_all_ok items : okl items ->
-    okl (concat (map fst (map classify items))) /\
-    Forall (fun yf => okb (fst yf) = true) (concat (map snd (map classify items))).
+    okl (concat (map fst (map classify items))) /\ okl (concat (map snd (map classify items))).
   Proof.
     induction 1 as [|x r Hx Hr [I1 I2]]; cbn [map concat]; [split; constructor|].
     destruct (classify_ok x Hx) as [C1 C2]. split; apply Forall_app; split; assumption.
@@ -837,14 +791,14 @@ Section Main.
 
   Lemma classify_all_val items : okl items -> forall rs, vals items rs ->
     exists ra rb, vals (concat (map fst (map classify items))) ra /\
-                  vals (map fst (concat (map snd (map classify items)))) rb /\
+                  vals (concat (map snd (map classify items))) rb /\
                   rprod rb <> 0%R /\ rprod rs = (rprod ra * / rprod rb)%R.
   Proof.
     induction 1 as [|x r Hx Hr IH]; intros rs Hv; inversion Hv; subst; cbn [map concat].
     - exists [], []. repeat split; [constructor | constructor | unfold rprod; cbn; lra | unfold rprod; cbn; field].
     - destruct (classify_val x y Hx H1) as [ra1 [rb1 [A1 [A2 [A3 A4]]]]].
       destruct (IH _ H3) as [ra2 [rb2 [B1 [B2 [B3 B4]]]]].
-      exists (ra1 ++ ra2), (rb1 ++ rb2). rewrite map_app. repeat split; try (apply vals_app; assumption).
+      exists (ra1 ++ ra2), (rb1 ++ rb2). repeat split; try (apply vals_app; assumption).
       + rewrite rprod_app. apply Rmult_integral_contrapositive. split; assumption.
       + rewrite !rprod_app. change (rprod (y :: l')) with (y * rprod l')%R. rewrite B4, A4. field. split; assumption.
   Qed.
